@@ -8,7 +8,9 @@ table transcribed from the property statement.  DOM/EXCL: the mutators
 who may call the mutators; the delegate set consulted is the one of the identity
 document the op refers to; the matches have no wildcard arm. 
 The author accessors the table compares with (`Comment::author`, `Issue::author`,
-`Revision::author`, ..) return a field written only where the object is created."""
+`Revision::author`, ..) return a field written only where the object is created.
+Equality on the workspace types the tables compare (labels, DIDs, keys) is the derived,
+structural one."""
 import re
 
 from .. import cfg, rules, flow, table
